@@ -1,8 +1,14 @@
-#!/bin/sh
-# re-confirm every seeded change against the current /repo HEAD and the current checks (the property's own check)
-cd /verif
-for d in seeded/*; do
-  id=$(basename $d); prop=$(echo $id | cut -c1-3)
-  tools/seed_eval.py /verif/$d $id $prop > /tmp/reeval_$id.log 2>&1
-  echo "$id $(grep -E '"detected_by"' -A2 /tmp/reeval_$id.log | tr -d '\n ') $(grep -c '"confirmed": true' /tmp/reeval_$id.log)"
-done
+#!/bin/bash
+# re-confirm every seeded change against the current /repo HEAD and the current checks (the property's own check), three at a time;
+# location independent (works in a `vp run` snapshot); summary lines go to stdout, full logs to $PWD/reeval_logs
+cd "$(dirname "$0")/.."
+mkdir -p reeval_logs
+one() {
+  d=$1; id=$(basename $d); prop=$(echo $id | cut -c1-3)
+  mkdir -p /tmp/lv_reeval_$id
+  SEED_TMP=/tmp/lv_reeval_$id tools/seed_eval.py $PWD/$d $id $prop > reeval_logs/$id.log 2>&1
+  rm -rf /tmp/lv_reeval_$id
+  echo "$id $(grep -E '"detected_by"' -A2 reeval_logs/$id.log | tr -d '\n ') confirmed=$(grep -c '"confirmed": true' reeval_logs/$id.log) applies=$(grep -c '"patch_applies": true' reeval_logs/$id.log)"
+}
+export -f one
+ls -d seeded/* | xargs -P 3 -I{} bash -c 'one {}'
